@@ -115,6 +115,11 @@ class Harness:
         from ixai.imputer import MarginalImputer, DefaultImputer
         self.cfg = cfg
         self.mode = cfg['mode']
+        # everything built here is a pure function of the case: storages draw from the global generator when constructed
+        import random as _random
+        import numpy as _np
+        _random.seed(cfg['seeds'][0])
+        _np.random.seed(cfg['seeds'][1] % (2 ** 32))
         self.names = list(cfg['names'])
         self.log = Log()
         self.faults = Faults() if faults else None
